@@ -217,6 +217,14 @@ theorem C20_reduce_rdp_sublist (simplified : List Nat) (ms out : List Message)
     out.Sublist ms ∧ out.filter (fun m => !isRecord m) = ms.filter (fun m => !isRecord m) :=
   reduceByRdp_ok h
 
+/-- **Reducing by RDP, with the simplifier's contract** (its answer is a sublist of the points it was handed — records
+whose position_lat and position_long are both valid): the result is the input without exactly the records whose point
+the simplifier dropped; every other message stays, in order. (A record without a valid position has no point and is
+dropped.) The geometry of `carto/rdp` itself stays a parameter. -/
+theorem C20_reduce_rdp_exact (simplified : List Nat) (ms : List Message) (hs : simplified.Sublist (pointIndexes ms))
+    (hne : (pointIndexes ms).isEmpty = false) : reduceByRdp simplified ms = .ok (rdpExpected simplified ms) :=
+  reduceByRdp_exact simplified ms hs hne
+
 /-! ## combiner -/
 
 /-- **Combining keeps every message of every input in creation-time order.** Whenever `Combine` succeeds, the body of
